@@ -12,6 +12,34 @@ SEEDS = {
              "and sign repair before a time-reversed measurement",
              "a disconnected target without isolated vertices whose components are contiguous in the emission order and that "
              "needs exactly one emitter (smallest: two Bell pairs); connected graphs and 2-emitter targets are unaffected"),
+ "S-C01-2": ("C01", "transformation.y_gate rewritten as one sign update with (x | z) instead of (x ^ z)", "a SigmaY gate (plain or in a "
+             "wrapper) on a qubit on which a stabilizer generator has a Y (H, P, Y on one qubit): the stabilizer backend's state "
+             "is orthogonal to the circuit's state, the density-matrix backend is right"),
+ "S-C11-2": ("C11", "canonical_form multiplies a row that has no X in the pivot column by the Z pivot row with a plain XOR of Z "
+             "parts and signs (no phase computation)", ">= 3 qubits, X-rank-deficient state, an X-type generator with a plain Z "
+             "in a Z-block pivot column overlapping the pivot row on two more X / Y positions (<ZXX, ZZZ, IZZ>): inverse "
+             "circuit prepares a state with one sign flipped, depending on the generating set"),
+ "S-C13-2": ("C13", "CompilerBase.compile: in the control-noise-before / target-noise-after branch the temporary noise list aliases "
+             "op.noise and overwrites its first entry with NoNoise", "noise simulation on, a controlled gate whose control noise "
+             "is placed before and whose target noise after the gate, and the SAME circuit compiled (or copied) again: the "
+             "second compile drops the control noise"),
+ "S-C14-2": ("C14", "single_qubit_wrapper_info treats a wrapper whose non-identity gates are all of one class as that single gate",
+             "a OneQubitGateWrapper made of one gate repeated ([Phase, Phase], [H, H], [Sdg, I, Sdg]) exported to openQASM: the "
+             "text applies the gate once"),
+ "S-C15-2": ("C15", "same change as S-C12-1 (replace_op files the node under the new class name), found independently for C15",
+             "a circuit in which an Identity placeholder was replaced by a real gate with replace_op, then compared or "
+             "de-duplicated: remove_identity deletes the gate, the edited circuit is reported equal to the circuit without it"),
+ "S-C16-2": ("C16", "iso_finder overwrites n_iso with the number found after its exhaustive pass", "a 4-5 vertex graph and a request "
+             "close to the number of distinct relabellings that exist (paw graph, n_iso = 10): more matrices than requested"),
+ "S-C17-2": ("C17", "partial_trace drops the explicit einsum output subscripts (implicit mode sorts upper-case labels first): the "
+             "reduced state comes out transposed", "a reduced state with non-real entries (a Y-basis factor): real states "
+             "and everything the solvers trace are unaffected"),
+ "S-C18-2": ("C18", "remove_identity iterates over node_dict['Identity'] while removing from it (the .copy() dropped): every second "
+             "identity survives", ">= 2 Identity gates after unwrapping with a survivor on the emitter path that determines the "
+             "maximum: the three emitter-depth metrics come out too large"),
+ "S-C19-2": ("C19", "update_hof treats scores within 1 % as ties (np.isclose rtol = 1e-2) and then prefers the smaller circuit",
+             "two different scores within 1 % (infidelities 1 - 2^-k from 7 photons on, or non-dyadic metrics): a worse circuit "
+             "is inserted above a better one, hall of fame unordered, result not the best"),
  "S-C02-2": ("C02", "_time_reversed_measurement skips _single_out_emitter (emitter-emitter reduction and sign repair) when no emitter "
              "acts on a photon, assuming all emitters are then still |0>", "a disconnected target with contiguous blocks whose "
              "later block needs >= 2 emitters (smallest: n = 6, an edge plus a 4-vertex component; no graph on <= 5 vertices): "
@@ -90,7 +118,12 @@ SEEDS = {
              "differs from its library representative by a phase with negative real part: simplify_local_clifford raises"),
 }
 STRENGTHENED = {
- "S-C06-1": "grid extended by the endpoint p = 1", "S-C02-2": "disjoint unions of connected 2-4 vertex blocks (n = 4..8) as targets",
+ "S-C06-1": "grid extended by the endpoint p = 1", "S-C13-2": "noise maps with the control noise before and the target noise after the gate; noisy copies compiled repeatedly",
+ "S-C14-2": "wrapper words the library never builds (one gate repeated, identity padding) - used by every circuit-level check",
+ "S-C15-2": "circuit families built through Identity placeholders and replace_op",
+ "S-C16-2": "isomorph requests close to n! / |Aut|",
+ "S-C19-2": "update_hof driven directly with synthetic populations incl. near ties (new clause HofUpdateRule)",
+ "S-C02-2": "disjoint unions of connected 2-4 vertex blocks (n = 4..8) as targets",
  "S-C03-2": "6-8 vertex graphs, half of them chosen so that a cut block has different real and GF(2) rank",
  "S-C08-2": "graphs whose node insertion order is not the label order",
  "S-C09-2": "lc_check on stabilizer STATES (signs, local Cliffords, both tableau classes) - new clause lc_states",
